@@ -119,7 +119,9 @@ static void check_monotone(uint64_t base, int64_t d1, int64_t d2) {
 }
 static void check_walltime(void) {
 	struct timespec ts; int use_null = g_chance(1, 4);
-	switch (g_n(7)) {
+	switch (g_n(9)) {
+	case 7: ts.tv_sec = 9223372035 + (time_t)g_n(4); ts.tv_nsec = (long)g_n(1000000000); break;   // around 2^63 ns: the seconds alone overflow a signed nanosecond count
+	case 8: ts.tv_sec = 9223372037 + (time_t)(g_rnd() % 4611686019ull); ts.tv_nsec = (long)g_n(1000000000); break;   // beyond it, where only a large negative delta brings the sum back into range
 	case 0: ts.tv_sec = 0; ts.tv_nsec = (long)g_n(5); break;
 	case 1: ts.tv_sec = 1700000000 + (time_t)g_n(1000); ts.tv_nsec = (long)g_n(1000000000); break;
 	case 2: ts.tv_sec = 4611686018 + (time_t)g_n(3); ts.tv_nsec = (long)g_n(1000000000); break;   // around 2^62 ns
